@@ -1,17 +1,26 @@
 """C20 runtime tie: real directories -> `anthem verify --no-proof-search --save-problems`.
 
-1. Role cases.  A random file tree (nested directories, hidden files, odd extensions, symlinks,
-   names chosen to separate byte order from "natural" orders) is written to a scratch directory;
+1. Role cases.  A random file tree (nested directories, hidden files, odd extensions, names chosen
+   to separate byte order from "natural" orders; SYMBOLIC LINKS to regular files (directly or through
+   a second link), to directories, to /dev/null, dangling links, links to the containing directory;
+   fifos) is written to a scratch directory;
    every file carries a unique number K in its content (program `p(K).`, specification
    `forall X (p(X) <-> X = K)`, user guide assumption `exists X (X = K)`, proof outline lemma
    `exists Y (Y = K)`), so that the problem files reveal which file played which role: whose
    formulas are axioms and whose are conjectures.  The arguments are given in a random order
    (sometimes a nested path directly, sometimes one argument twice).  The roles decoded from the
    problem files (or the "no ... was provided" error) are compared with the roles predicted by the
-   Coq model (driver op `files_sort` on the abstract tree).
-2. Swap cases.  problems(strong, B, A, forward) = problems(strong, A, B, backward) up to the
-   left_/right_ formula-name prefixes and the problem names; for external program-vs-program
-   additionally up to the `_p` renaming of private predicates of the program side.
+   Coq model (driver op `files_sort` on the abstract tree); when the model predicts a walkdir error
+   (dangling link, loop) the command must fail with `unable to sort the given files by their
+   function`, naming that path and that kind of error.
+   The recorded input of finding F23 (a symlinked .lp argument was dropped silently and the roles
+   shifted to the next files) is replayed first, in-process and through the CLI.
+2. Swap cases.  problems(strong, B, A, forward) vs problems(strong, A, B, backward) in the shape of
+   C20_swap_syntactic: problem names forward_k / backward_k; per problem the same lines IN THE SAME
+   ORDER except for the block of transition axioms and the block of predicate declarations, which
+   are equal as multisets; formula names up to the running number and left_/right_.  External
+   program-vs-program (no theorem of this shape): equal as multisets of lines up to the `_p` renaming
+   of private predicates of the program side.
 """
 import os
 import re
@@ -62,8 +71,11 @@ class Gen:
         self.k = 10
         self.ids = {}      # relative path -> K
 
-    def nodes(self, depth, maxn, prefix, weights):
+    def nodes(self, depth, maxn, prefix, weights, root=True):
         # (a top-level name beginning with `-` would be read as an option by clap: only nested)
+        # node shapes: ("file", name, kind, K)  ("special", name, kind)  ("dir", name, children)
+        #              ("link", name, kind, "file", K) ("link", name, kind, "special"|"dangling"|"loop")
+        #              ("linkdir", name, children)
         r = self.r
         used = set()
         out = []
@@ -73,15 +85,27 @@ class Gen:
                 if name in used:
                     continue
                 used.add(name)
-                out.append(("dir", name, self.nodes(depth - 1, 5, prefix + name + "/", weights)))
+                tag = "linkdir" if r.random() < 0.25 else "dir"
+                out.append((tag, name, self.nodes(depth - 1, 5, prefix + name + "/", weights, False)))
             else:
                 kind = r.choices(["lp", "spec", "ug", "po", "other"], weights)[0]
                 name = r.choice(FILE_NAMES[kind])
                 if name in used or (prefix == "" and name.startswith("-")):
                     continue
                 used.add(name)
-                if r.random() < 0.05:
+                x = r.random()
+                if x < 0.04:
                     out.append(("special", name, kind))
+                elif x < 0.22:
+                    self.k += 1
+                    self.ids[prefix + name] = self.k
+                    out.append(("link", name, kind, "file", self.k))
+                elif x < 0.25:
+                    out.append(("link", name, kind, "special"))
+                elif x < 0.262:
+                    out.append(("link", name, kind, "dangling"))
+                elif x < 0.274 and not root:
+                    out.append(("link", name, kind, "loop"))
                 else:
                     self.k += 1
                     self.ids[prefix + name] = self.k
@@ -99,7 +123,7 @@ def plant(g, nodes, kinds):
         level, prefix = nodes, ""
         if where != "top":
             for _ in range(2 if where == "nested" else 1):
-                dirs = [n for n in level if n[0] == "dir"]
+                dirs = [n for n in level if n[0] in ("dir", "linkdir")]
                 if dirs and r.random() < 0.6:
                     d = r.choice(dirs)
                 else:
@@ -116,15 +140,51 @@ def plant(g, nodes, kinds):
         level.insert(r.randint(0, len(level)), ("file", name, kind, g.k))
 
 
-def materialise(root, nodes):
+class Store:
+    """where the targets of links live: a directory that is never walked"""
+
+    def __init__(self, path):
+        self.path = path
+        self.n = 0
+
+    def fresh(self):
+        os.makedirs(self.path, exist_ok=True)
+        self.n += 1
+        return os.path.join(self.path, f"t{self.n}")
+
+
+def materialise(root, nodes, store):
     for n in nodes:
         p = os.path.join(root, n[1])
         if n[0] == "dir":
             os.makedirs(p, exist_ok=True)
-            materialise(p, n[2])
+            materialise(p, n[2], store)
+        elif n[0] == "linkdir":
+            if not os.path.lexists(p):
+                t = store.fresh()
+                os.makedirs(t)
+                materialise(t, n[2], store)
+                os.symlink(t, p)
         elif n[0] == "special":
             if not os.path.lexists(p):
+                os.mkfifo(p)
+        elif n[0] == "link":
+            if os.path.lexists(p):
+                continue
+            if n[3] == "file":
+                t = clilib.write(store.fresh(), content(n[2], n[4]))
+                if store.n % 2 == 0:        # through a second link, relative
+                    t2 = store.fresh()
+                    os.symlink(os.path.basename(t), t2)
+                    t = t2
+                os.symlink(t, p)
+            elif n[3] == "special":
                 os.symlink("/dev/null", p)
+            elif n[3] == "dangling":
+                t = store.fresh()
+                os.symlink(t if store.n % 2 == 0 else n[1], p)      # missing target / the link itself (ELOOP)
+            else:
+                os.symlink(".", p)          # the containing directory: a loop
         else:
             clilib.write(p, content(n[2], n[3]))
 
@@ -133,15 +193,49 @@ def wire(n, name=None):
     nm = sx(name if name is not None else n[1])
     if n[0] == "dir":
         return "(dir " + nm + "".join(" " + wire(c) for c in n[2]) + ")"
+    if n[0] == "linkdir":
+        return "(link " + nm + " (dir" + "".join(" " + wire(c) for c in n[2]) + "))"
+    if n[0] == "link":
+        return f"(link {nm} {n[3]})"
     return f"({n[0]} {nm})"
 
 
-def nested_candidates(nodes, prefix=""):
+def is_loop(n):
+    return n[0] == "link" and n[3] == "loop"
+
+
+def link_ks(nodes):
+    """the numbers of the files that are reached through a link to a regular file"""
     out = []
     for n in nodes:
-        if n[0] == "dir":
+        if n[0] == "link" and n[3] == "file":
+            out.append(n[4])
+        elif n[0] in ("dir", "linkdir"):
+            out += link_ks(n[2])
+    return out
+
+
+def count_links(nodes, acc):
+    for n in nodes:
+        if n[0] == "link":
+            bump(acc, "link to " + n[3])
+        elif n[0] == "linkdir":
+            bump(acc, "link to directory")
+            count_links(n[2], acc)
+        elif n[0] == "dir":
+            count_links(n[2], acc)
+    return acc
+
+
+def nested_candidates(nodes, prefix=""):
+    # (a link to the containing directory passed as an argument itself is not a loop for walkdir - its
+    #  ancestor stack is empty -: not a shape of the model, never passed directly)
+    out = []
+    for n in nodes:
+        if n[0] in ("dir", "linkdir"):
             for c in n[2]:
-                out.append((prefix + n[1] + "/" + c[1], c))
+                if not is_loop(c):
+                    out.append((prefix + n[1] + "/" + c[1], c))
             out += nested_candidates(n[2], prefix + n[1] + "/")
     return out
 
@@ -169,7 +263,13 @@ def unesc(s):
     return b.decode()
 
 
+ERR_RE = re.compile(r'^\(err \((io|loop) "((?:[^"\\]|\\.)*)"\)\)')
+
+
 def model_roles(ans):
+    m = ERR_RE.match(ans)
+    if m:
+        return {"walkdir_error": (m.group(1), unesc(m.group(2)))}
     roles = {}
     for m in OPT_RE.finditer(ans):
         roles[m.group(1)] = unesc(m.group(2))
@@ -205,9 +305,6 @@ def role_case(exe, scratch, idx, seed):
         # the program roles of strong equivalence must not depend on .spec/.ug/.po files that happen to
         # be among the arguments or inside the given directories
         plant(g, nodes, r.sample(["spec", "ug", "po"], r.choice([1, 1, 2, 3])) + (["lp", "lp"] if r.random() < 0.5 else []))
-    root = os.path.join(scratch, f"roles{idx}")
-    os.makedirs(os.path.join(root, "in"))
-    materialise(os.path.join(root, "in"), nodes)
     args = [(n[1], n) for n in nodes]
     r.shuffle(args)
     if r.random() < 0.3:
@@ -219,14 +316,27 @@ def role_case(exe, scratch, idx, seed):
         args.append(r.choice(args))
     if r.random() < 0.15:
         # give a directory's content instead of the directory
-        args = [a for a in args if a[1][0] != "dir"] + [(a[0] + "/" + c[1], c) for a in args if a[1][0] == "dir" for c in a[1][2]]
+        isdir = lambda a: a[1][0] in ("dir", "linkdir") and not any(is_loop(c) for c in a[1][2])
+        args = [a for a in args if not isdir(a)] + [(a[0] + "/" + c[1], c) for a in args if isdir(a) for c in a[1][2]]
+    res = run_tree(exe, scratch, f"roles{idx}", mode, nodes, args, g.ids)
+    res.update({"idx": idx, "seed": seed})
+    return res
+
+
+def run_tree(exe, scratch, name, mode, nodes, args, ids):
+    """materialise `nodes`, run `anthem verify` on the arguments `args` = [(path, node)], decode the roles"""
+    root = os.path.join(scratch, name)
+    os.makedirs(os.path.join(root, "in"))
+    materialise(os.path.join(root, "in"), nodes, Store(os.path.join(root, "store")))
     line = "files_sort\t(" + " ".join(wire(n, name) for name, n in args) + ")"
     out = os.path.join(root, "out")
     os.makedirs(out)
     cmd = [exe, "verify", "--equivalence", mode, "--no-proof-search", "--save-problems", out] + [a[0] for a in args]
     rr = clilib.run(cmd, cwd=os.path.join(root, "in"))
-    res = {"idx": idx, "seed": seed, "mode": mode, "line": line, "args": [a[0] for a in args], "ids": g.ids, "rc": rr.rc,
-           "stderr": rr.err.decode("utf8", "replace").strip().split("\n")[0][:200], "crashed": rr.crashed, "observed": {}}
+    res = {"mode": mode, "line": line, "args": [a[0] for a in args], "ids": ids, "rc": rr.rc,
+           "stderr": rr.err.decode("utf8", "replace").strip().split("\n")[0][:200],
+           "stderr_full": rr.err.decode("utf8", "replace")[:1500], "crashed": rr.crashed, "observed": {},
+           "links": count_links(nodes, {}), "link_ks": link_ks(nodes)}
     if rr.rc == 0:
         name = "forward_0.p" if mode == "strong" else "forward_problem_0.p"
         p = os.path.join(out, name)
@@ -238,9 +348,39 @@ def role_case(exe, scratch, idx, seed):
     return res
 
 
+def walkdir_error_reported(o, exp):
+    kind, path = exp
+    text = o["stderr_full"]
+    if o["rc"] == 0 or "unable to sort the given files by their function" not in text:
+        return False
+    if kind == "loop":
+        return f"File system loop found: {path} points to an ancestor" in text
+    return f"IO error for operation on {path}:" in text
+
+
+def judge(o, ans):
+    """-> (violation text or None, kind, expected, roles)"""
+    roles = model_roles(ans)
+    kind, exp = expected_of(o["mode"], roles, o["ids"])
+    if kind == "walkdir":
+        if not walkdir_error_reported(o, exp):
+            return ("a dangling link / a link to a containing directory below the arguments was not reported as the walkdir error the model predicts"
+                    " (finding F23: links must be followed or reported, never dropped silently)"), kind, exp, roles
+    elif kind == "error":
+        if o["rc"] == 0 or exp not in o["stderr"]:
+            return "anthem accepted (or rejected differently) a file set for which the model finds a role unfilled", kind, exp, roles
+    elif o["rc"] != 0:
+        return "anthem rejected a file set for which the model fills every role", kind, exp, roles
+    elif o["observed"] != exp:
+        return "the file that played a role (whose formulas became axioms / conjectures) is not the one the model selects", kind, exp, roles
+    return None, kind, exp, roles
+
+
 def expected_of(mode, roles, ids):
     """model roles -> what must be observed: ('error', message) or ('roles', {...})"""
     idof = lambda p: ids.get(p) if p is not None else None
+    if "walkdir_error" in roles:
+        return ("walkdir", roles["walkdir_error"])
     if mode == "strong":
         if roles["left"] is None:
             return ("error", "no left program was provided")
@@ -285,17 +425,31 @@ NUMBERING = re.compile(r"^tff\((formula|predicate)_\d+_?")
 
 
 def normal_lines(text, swap):
-    """the problem as a multiset of annotated formulas / declarations: the running numbers in the
-    names are dropped, left_/right_ optionally exchanged, lines sorted"""
-    out = []
+    """the problem in the shape of C20_swap_syntactic: (everything except type declarations and
+    transition axioms IN ORDER - the preamble, then the annotated formulas of the two programs with
+    their roles -, the multiset of transition axioms, the multiset of predicate declarations); the
+    running numbers in the names are dropped, left_/right_ optionally exchanged"""
+    ordered, transition, decls = [], [], []
     for ln in text.split("\n"):
         ln = NUMBERING.sub(lambda m: "tff(" + m.group(1) + "_", ln)
-        ln = re.sub(r"^tff\(formula_transition_axiom_\d+,", "tff(formula_transition_axiom,", ln)
+        if ln.startswith("tff(predicate_"):
+            decls.append(ln)
+            continue
+        if ln.startswith("tff(formula_transition_axiom_"):
+            transition.append(re.sub(r"^tff\(formula_transition_axiom_\d+,", "tff(formula_transition_axiom,", ln))
+            continue
         if swap and ln.startswith("tff(formula_"):
             head, sep, rest = ln.partition(",")
             ln = swap_lr(head) + sep + rest
-        out.append(ln)
-    return sorted(out)
+        ordered.append(ln)
+    return ordered, sorted(transition), sorted(decls)
+
+
+def first_difference(la, lb):
+    for part, (x, y) in zip(("formulas in order", "transition axioms", "predicate declarations"), zip(la, lb)):
+        if x != y:
+            return part + ": " + repr(next((u, v) for u, v in zip(x + [""], y + [""]) if u != v))[:400]
+    return ""
 
 
 def swap_private(x, y):
@@ -327,7 +481,7 @@ def swap_case(exe, scratch, idx, mode, a, b, extra):
         if mode == "strong":
             la, lb = normal_lines(ta, True), normal_lines(tb, False)
             ok = la == lb
-            why = "" if ok else "first differing formula: " + repr(next((u, v) for u, v in zip(la + [""], lb + [""]) if u != v))[:400]
+            why = "" if ok else "first difference in " + first_difference(la, lb)
             if ok and ta != swap_lr(tb) and res.get("order_differs") is None:
                 res["order_differs"] = True
         else:
@@ -347,7 +501,66 @@ def swap_case(exe, scratch, idx, mode, a, b, extra):
     return res
 
 
+def untuple(nodes):
+    """JSON lists -> the tuple shapes of Gen.nodes"""
+    return [tuple(untuple(x) if isinstance(x, list) else x for x in n) for n in nodes]
+
+
+def tree_ids(nodes, prefix=""):
+    ids = {}
+    for n in nodes:
+        if n[0] == "file":
+            ids[prefix + n[1]] = n[3]
+        elif n[0] == "link" and n[3] == "file":
+            ids[prefix + n[1]] = n[4]
+        elif n[0] in ("dir", "linkdir"):
+            ids.update(tree_ids(n[2], prefix + n[1] + "/"))
+    return ids
+
+
+def regressions(ctx, with_harness):
+    """Replay the recorded inputs of repaired findings (known_findings.jsonl, status `fixed`, property C20):
+    `regression.cli` = {mode, nodes}: a file tree given to `anthem verify` (every top-level node is an
+    argument, in order), judged against the model like a generated role case; `regression.op/input`:
+    the same tree as a `files_sort` case (in-process, needs the harness).  A failure is reported FIRST."""
+    exe = clilib.anthem_exe()
+    for e in vlib.known_findings(ctx.prop):
+        reg = e.get("regression")
+        if e.get("status") != "fixed" or not reg:
+            continue
+        key = "regression-" + e["id"]
+        if key in ctx.replayed:
+            continue
+        ctx.replayed.add(key)
+        before = len(ctx.violations)
+        if reg.get("cli"):
+            with clilib.Scratch("C20-regression") as scratch:
+                nodes = untuple(reg["cli"]["nodes"])
+                o = run_tree(exe, scratch, e["id"], reg["cli"]["mode"], nodes, [(n[1], n) for n in nodes], tree_ids(nodes))
+            ans = vlib.run_lines(vlib.DRIVER_EXE, [o["line"]])[0]
+            what, kind, exp, roles = judge(o, ans)
+            ctx.evaluations += 1
+            if what:
+                ctx.violation(f"finding {e['id']} (repaired by /repo {e.get('commit', '?')}) reproduces on its recorded input: {what}",
+                              {"kind": "custom-tree", "finding": e["id"], "mode": o["mode"], "nodes": reg["cli"]["nodes"], "args": o["args"],
+                               "tree": o["line"].split("\t", 1)[1], "file_ids": o["ids"], "model_roles": roles, "expected": [kind, exp],
+                               "exit_code": o["rc"], "stderr": o["stderr_full"], "observed_file_numbers_by_role": o["observed"]}, True)
+        if with_harness and reg.get("op"):
+            line = f"{reg['op']}\t{reg['input']}"
+            impl = vlib.run_lines(vlib.HARNESS_EXE, [line])[0]
+            model = vlib.run_lines(vlib.DRIVER_EXE, [line])[0]
+            ctx.evaluations += 1
+            if impl != model:
+                ctx.violation(f"finding {e['id']} (repaired by /repo {e.get('commit', '?')}) reproduces on its recorded input: Files::sort differs from the model",
+                              {"kind": "correspondence", "finding": e["id"], "op": reg["op"], "input": reg["input"], "implementation": impl, "model": model}, True)
+        # reported first: bin/check prints the first three violations with a failing input
+        new = ctx.violations[before:]
+        del ctx.violations[before:]
+        ctx.violations[0:0] = new
+
+
 def extra(ctx, cfg, results):
+    regressions(ctx, True)
     cli_search(ctx, cfg)
 
 
@@ -361,9 +574,10 @@ def search_on_break(ctx, cfg, broken):
             vlib.build_driver()
         except vlib.Broken:
             return False
-    before = len(ctx.violations)
+    before = sum(1 for _, _, f in ctx.violations if f)
+    regressions(ctx, False)
     cli_search(ctx, cfg)
-    return any(f for _, _, f in ctx.violations[before:])
+    return sum(1 for _, _, f in ctx.violations if f) > before
 
 
 def cli_search(ctx, cfg):
@@ -373,7 +587,7 @@ def cli_search(ctx, cfg):
     n_roles = 12000 if thorough else 1600
     n_swaps = 600 if thorough else 120
     dist = {"mode": {}, "expected": {}, "args": {}, "files_per_case": {}, "decoded_role_holders": 0, "swap": {}, "swap_problems": 0,
-            "strong_roles_filled_with_spec_ug_po_present": 0}
+            "strong_roles_filled_with_spec_ug_po_present": 0, "links": {}, "cases_where_a_role_holder_is_a_link": 0}
     with clilib.Scratch("C20") as scratch:
         r0 = clilib.rng(ctx, "roles")
         seeds = [r0.getrandbits(48) for _ in range(n_roles)]
@@ -389,30 +603,35 @@ def cli_search(ctx, cfg):
             if o["crashed"]:
                 ctx.violation("anthem crashed while sorting files / generating problems", payload, True)
                 continue
-            if not ans.startswith("(files"):
+            if not ans.startswith(("(files", "(err (")):
                 ctx.violation("model driver could not evaluate a file tree", {**payload, "answer": ans[:300]}, False)
                 continue
-            roles = model_roles(ans)
-            kind, exp = expected_of(o["mode"], roles, o["ids"])
+            what, kind, exp, roles = judge(o, ans)
             payload["model_roles"] = roles
-            if kind == "error":
-                bump(dist["expected"], exp)
-                if o["rc"] == 0 or exp not in o["stderr"]:
+            for k, v in o["links"].items():
+                dist["links"][k] = dist["links"].get(k, 0) + v
+            if kind in ("error", "walkdir"):
+                bump(dist["expected"], exp if kind == "error" else f"walkdir error ({exp[0]})")
+                if what:
                     payload["expected_error"] = exp
-                    ctx.violation("anthem accepted (or rejected differently) a file set for which the model finds a role unfilled", payload, True)
+                    payload["stderr_full"] = o["stderr_full"]
+                    ctx.violation(what, payload, True)
                 continue
             bump(dist["expected"], "roles filled")
-            if o["rc"] != 0:
+            if what and o["rc"] != 0:
                 payload["expected_roles"] = exp
-                ctx.violation("anthem rejected a file set for which the model fills every role", payload, True)
+                ctx.violation(what, payload, True)
                 continue
             ctx.nontrivial.add(o["line"] + o["mode"])
             if o["mode"] == "strong" and any(p.endswith((".spec", ".ug", ".po")) and len(os.path.basename(p)) > 5 for p in o["ids"]):
                 dist["strong_roles_filled_with_spec_ug_po_present"] += 1
             dist["decoded_role_holders"] += sum(1 for v in o["observed"].values() if v is not None)
-            if o["observed"] != exp:
+            holders = {v for v in exp.values() if v is not None}
+            if holders & set(o["link_ks"]):
+                dist["cases_where_a_role_holder_is_a_link"] += 1
+            if what:
                 payload.update({"expected_file_numbers_by_role": exp, "observed_file_numbers_by_role": o["observed"]})
-                ctx.violation("the file that played a role (whose formulas became axioms / conjectures) is not the one the model selects", payload, True)
+                ctx.violation(what, payload, True)
             elif sum(1 for x in ctx.samples if "roles_observed" in x) < 2 and len(o["args"]) > 2:
                 ctx.samples.insert(0, {"mode": o["mode"], "arguments": o["args"], "file_numbers": o["ids"], "roles_observed": o["observed"], "roles_model": exp})
 
@@ -457,16 +676,21 @@ def cli_search(ctx, cfg):
 def replay(ctx, cfg, r):
     import json
     exe = clilib.anthem_exe()
-    if r.get("kind") == "custom-files":
+    if r.get("kind") in ("custom-files", "custom-tree"):
         with clilib.Scratch("C20-replay") as scratch:
-            o = role_case(exe, scratch, r["idx"], r["seed"])
+            if r["kind"] == "custom-tree":
+                nodes = untuple(r["nodes"])
+                o = run_tree(exe, scratch, "tree", r["mode"], nodes, [(n[1], n) for n in nodes], tree_ids(nodes))
+            else:
+                o = role_case(exe, scratch, r["idx"], r["seed"])
             ans = vlib.run_lines(vlib.DRIVER_EXE, [o["line"]])[0]
-            roles = model_roles(ans)
-            kind, exp = expected_of(o["mode"], roles, o["ids"])
-            print("mode:", o["mode"], "\narguments:", o["args"], "\nfile numbers:", o["ids"])
+            what, kind, exp, roles = judge(o, ans)
+            print("mode:", o["mode"], "\narguments:", o["args"], "\nfile numbers:", o["ids"], "\ntree:", o["line"].split("\t", 1)[1])
             print("model roles:", roles, "\nexpected:", kind, exp)
-            print("anthem: exit", o["rc"], o["stderr"], "\nobserved role holders:", o["observed"])
-            bad = (o["rc"] == 0 or exp not in o["stderr"]) if kind == "error" else (o["rc"] != 0 or o["observed"] != exp)
+            print("anthem: exit", o["rc"], o["stderr_full"].strip(), "\nobserved role holders:", o["observed"])
+            bad = what is not None
+            if bad:
+                print("failure:", what)
         if bad:
             print(f"VIOLATION property={ctx.prop} replay=(re-run)")
             sys.exit(1)
